@@ -167,6 +167,22 @@ def run(ctx):
     else:
         ctx.tlc_must_pass("conc", "MC_SFI", "MC_SFI_3.cfg", timeout=1800, tag="mc-inbound-3")
         ctx.tlc_must_pass("conc", "MC_SFS", "MC_SFS_3.cfg", timeout=1800, tag="mc-subgraph-3")
+    if not quick:
+        # unbounded N: TLAPS proof that IndInv is inductive and implies the six safety invariants for every N
+        # (spec/conc/SFI_IndInv*.tla, design.d/C11-proof.md). A failure is a model-level problem, never a verdict.
+        import subprocess
+        p = subprocess.run(["bash", lib.SPEC + "/conc/check_sfi_indinv.sh", "--neg"], stdout=subprocess.PIPE,
+                           stderr=subprocess.STDOUT, text=True, timeout=1800)
+        ctx.log("TLAPS: " + " | ".join(l.strip() for l in p.stdout.splitlines() if "obligations" in l or "RESULT" in l))
+        if p.returncode != 0:
+            print(p.stdout[-3000:])
+            raise lib.Inconclusive("the TLAPS proof of the inductive invariant (SFI_IndInv_proofs.tla) did not go through")
+        import re as _re
+        m = _re.search(r"All (\d+) obligations proved", p.stdout)
+        ctx.coverage["tlaps"] = {"obligations": int(m.group(1)) if m else None, "discharged": int(m.group(1)) if m else None,
+                                 "checker_cmd": "bash spec/conc/check_sfi_indinv.sh --neg",
+                                 "theorem": "Spec => [](NoPanic /\\ LeaderOwnsEntry /\\ NoForeignCancel /\\ Transparent /\\ SharedOnlyIfSameKey /\\ NoTornBuffer) for every N, MaxCancels in Nat, Fixed = TRUE",
+                                 "negative_control": "without Fixed = TRUE exactly the AfterWokeNothing and EndWork steps are unprovable"}
     # the pinned (pre-fix) protocol must be *rejected* by the model: guards against a vacuous spec
     r = ctx.tlc("conc", "MC_SFI", "MC_SFI_3_pinned.cfg", timeout=600, count=False, tag="mc-inbound-pinned-negative")
     if r.violated != "NoPanic":
